@@ -1,4 +1,5 @@
 mod alloc;
+mod asm;
 mod cfi;
 mod feat;
 #[path = "../../featrun/src/exec.rs"]
@@ -69,6 +70,7 @@ fn main() {
         "macho" => macho::run(&tier, seed),
         "ana" => macho::run_ana(&tier, seed),
         "alloc" => alloc::run(&tier, seed),
+        "asm" => asm::run(&tier, seed),
         "feat" => feat::run(&tier, seed, out.as_deref()),
         "mut" => mutate::run(&tier, seed, out.as_deref()),
         "mut-replay" => {
